@@ -504,6 +504,92 @@ Proof.
   - exists None. split; [vm_compute; left; reflexivity|]. reflexivity.
 Qed.
 
+(* ---- histories of starts and CloseProxy calls ---- *)
+Lemma server_ret_bounded wait s : dle (s_ret (run_server grpc_prog wait s)) (Fin wait).
+Proof.
+  destruct s as [l | cs]; cbn [run_server s_ret].
+  - apply leaf_ret_bounded.
+  - apply dmax_list_lub. intros x Hx. apply in_map_iff in Hx. destruct Hx as [lr [<- Hlr]].
+    apply in_map_iff in Hlr. destruct Hlr as [l [<- _]]. apply leaf_ret_bounded.
+Qed.
+
+(* whatever was started, overwritten or closed before, under whatever key function *)
+Theorem history_bounded kf wait h : dle (history_ret (run_history grpc_prog kf wait h)) (Fin wait).
+Proof.
+  unfold history_ret. apply dmax_list_lub. intros x Hx. apply in_map_iff in Hx.
+  destruct Hx as [f [<- Hf]]. destruct f; try apply dle_zero.
+  induction h as [|o h IH]; cbn [run_history] in Hf; [contradiction|].
+  destruct o as [a s | a | a]; try (apply IH; exact Hf).
+  destruct Hf as [Hf | Hf]; [|apply IH; exact Hf].
+  destruct (first_touch kf a h) as [[|]|]; try discriminate.
+  inversion Hf. apply server_ret_bounded.
+Qed.
+
+Lemma first_touch_not_overwritten a later :
+  ~ In a (history_addrs later) -> first_touch key_configured a later <> Some false.
+Proof.
+  induction later as [|o later IH]; cbn [first_touch history_addrs flat_map]; intros H; [discriminate|].
+  destruct o as [a' s | a' | a'].
+  - cbn [app] in H. destruct (addr_eqb (key_configured a') (key_configured a)) eqn:E.
+    + exfalso. apply addr_eqb_eq in E. unfold key_configured in E. apply H. left. exact E.
+    + apply IH. intros Hin. apply H. right. exact Hin.
+  - cbn [app] in H. destruct (addr_eqb (key_configured a') (key_configured a)); [discriminate|apply IH; exact H].
+  - cbn [app] in H. apply IH. exact H.
+Qed.
+
+Theorem history_no_accept wait h f t :
+  NoDup (history_addrs h) ->
+  In f (run_history grpc_prog key_configured wait h) -> sfate_accepts f t = false.
+Proof.
+  induction h as [|o h IH]; cbn [run_history history_addrs flat_map]; intros Hd Hf; [contradiction|].
+  destruct o as [a s | a | a]; cbn [app] in Hd; try (apply IH; assumption).
+  inversion Hd as [|x xs Hn Hd']; subst.
+  destruct Hf as [Hf | Hf]; [|apply IH; assumption].
+  pose proof (first_touch_not_overwritten a h Hn) as Ht.
+  destruct (first_touch key_configured a h) as [[|]|]; subst f; cbn [sfate_accepts].
+  - reflexivity.
+  - exfalso. apply Ht. reflexivity.
+  - apply server_never_accepts. left; reflexivity.
+Qed.
+
+(* without CloseProxy calls a history is the list of started servers *)
+Theorem history_without_close wait started :
+  NoDup (map fst started) ->
+  run_history grpc_prog key_configured wait (map (fun p => HStart (fst p) (snd p)) started)
+  = map (fun p => SReached (run_server grpc_prog wait (snd p))) started.
+Proof.
+  induction started as [|[a s] later IH]; cbn [map run_history fst snd]; intros H; [reflexivity|].
+  inversion H as [|x xs Hn Hd]; subst. rewrite (IH Hd).
+  assert (Hh : history_addrs (map (fun p => HStart (fst p) (snd p)) later) = map fst later).
+  { clear. induction later as [|[a' s'] l IH]; cbn [map history_addrs flat_map app fst snd]; [reflexivity|].
+    f_equal. exact IH. }
+  pose proof (first_touch_not_overwritten a (map (fun p => HStart (fst p) (snd p)) later)) as Ht.
+  rewrite Hh in Ht. specialize (Ht Hn).
+  assert (Hc : first_touch key_configured a (map (fun p => HStart (fst p) (snd p)) later) <> Some true).
+  { clear. induction later as [|[a' s'] l IH]; cbn [map first_touch fst snd]; [discriminate|].
+    destruct (addr_eqb (key_configured a') (key_configured a)); [discriminate|exact IH]. }
+  destruct (first_touch key_configured a _) as [[|]|]; try reflexivity; exfalso; auto.
+Qed.
+
+(* a CloseProxy that held the registry lock while draining (NOT the code) would let every other
+   listener accept after shutdown began and push the return beyond the wait *)
+Theorem lock_held_during_close_refuted :
+  exists delay wait s, 0 < delay /\
+    lock_held_accepts delay (run_server grpc_prog wait s) 0 = true /\
+    ~ dle (lock_held_ret delay (run_server grpc_prog wait s)) (Fin wait).
+Proof.
+  exists 200, 300, (Single (mkleaf KTcp [Fin 90])). split; [lia|]. split; [vm_compute; reflexivity|].
+  vm_compute. discriminate.
+Qed.
+
+Example history_nonvacuous :
+  run_history grpc_prog key_configured 300
+    [HStart (1, 80) (Single (mkleaf KHttp [Fin 90])); HStart (1, 9000) (Single (mkleaf KTcp [Fin 90; Inf]));
+     HClose (1, 9000); HStart (1, 9000) (Single (mkleaf KTcp [])); HCloseDuring (1, 80)]
+  = [SReached (run_server grpc_prog 300 (Single (mkleaf KHttp [Fin 90]))); SClosed;
+     SReached (run_server grpc_prog 300 (Single (mkleaf KTcp [])))].
+Proof. vm_compute. reflexivity. Qed.
+
 (* ---- non-vacuity ---- *)
 Definition example_mix : list server :=
   [Single (mkleaf KHttp [Fin 90; Fin 600; Inf]);
